@@ -118,7 +118,7 @@ impl HG {
 }
 
 const PROBE_VARS: &[&str] = &[
-    "VE1", "VE2", "VS1", "vs_lower", "VA1", "VH1", "VI1", INHERITED, "VS_CFG", "UIDX", "PPID2", "x1", "_under", "BASH_MINE", "LINENO_COPY", "SCRUT_TESTX", "VL1", "VU1",
+    "VE1", "VE2", "VS1", "vs_lower", "VA1", "VH1", "VI1", INHERITED, "SUDO_UID", "VS_CFG", "UIDX", "PPID2", "x1", "_under", "BASH_MINE", "LINENO_COPY", "SCRUT_TESTX", "VL1", "VU1",
     "VEMPTY", "CDPATH", "GREP_OPTIONS",
 ];
 
@@ -131,6 +131,7 @@ fn probe_all() -> String {
     s.push_str("printenv VS_CFG || echo VS_CFG:not-in-env\n");
     s.push_str("printenv CDPATH; echo \"CDPATH-in-env:$?\"\n");
     s.push_str(&format!("printenv {INHERITED} || echo {INHERITED}:not-in-env\n"));
+    s.push_str("printenv SUDO_UID || echo SUDO_UID:not-in-env\n");
     s.push_str("declare -f f1 || echo f1:undefined\n");
     s.push_str("declare -f f_heredoc || echo f_heredoc:undefined\n");
     s.push_str("declare -f fx || echo fx:undefined\n");
@@ -322,6 +323,9 @@ fn systematic_histories() -> Vec<History> {
         // (seed 103 of the sweep: unset, then set again as a plain shell variable)
         ("inherited-unset-then-plain", "unset VS_INHERITED", "VS_INHERITED=", "VS_INHERITED=plain-again"),
         ("inherited-unset-then-export", "unset VS_INHERITED", "true", "export VS_INHERITED=back"),
+        // (an inherited variable whose name contains the name of a never-carried one)
+        ("inherited-lookalike-unset", "unset SUDO_UID", "true", "SUDO_UID=back"),
+        ("inherited-lookalike-export-n", "export -n SUDO_UID", "VS1=$SUDO_UID", "export SUDO_UID"),
         ("export-n", "export VE1=one VE2=two", "export -n VE1", "export VE1; export -n VE2"),
         ("attr-case", "declare -l VL1=MiXed; declare -u VU1=MiXed", "VL1=AGAIN; VU1=again", "unset VL1; declare +u VU1; VU1=Plain"),
         ("export-empty", "export VEMPTY=", "VEMPTY=filled", "export VEMPTY="),
@@ -697,6 +701,8 @@ pub fn run_real(prop: &str, tier: &str, seed: u64, threads: usize, known: &Known
     std::env::set_var(INHERITED, "inherited-value");
     // (and one whose name begins with that name: a test by prefix must not confuse the two)
     std::env::set_var(format!("{}2", INHERITED), "second-inherited-value");
+    // (... and one whose name merely CONTAINS the name of a variable that is never carried)
+    std::env::set_var("SUDO_UID", "1000");
     match prop {
         "C12" => run_c12(tier, seed, threads, known),
         "C13" => run_c13_conformance(tier, seed, threads),
@@ -1552,6 +1558,8 @@ pub fn replay_real(path: &str, text: &str) -> i32 {
     }
     std::env::set_var(INHERITED, "inherited-value");
     std::env::set_var(format!("{}2", INHERITED), "second-inherited-value");
+    // (... and one whose name merely CONTAINS the name of a variable that is never carried)
+    std::env::set_var("SUDO_UID", "1000");
     let h: History = match serde_json::from_str(text) {
         Ok(h) => h,
         Err(e) => {
